@@ -1993,3 +1993,65 @@ def rule_F11(ctx, rid='F11'):
                    'rewrites what the sampler stores' % (e.id, why))
     ctx.require(n >= 3, 'F11 saw only %d returned arrays in posterior() (floor 3)' % n)
     return n
+
+
+def rule_F12(ctx, rid='F12'):
+    """The array a vectorised likelihood returns belongs to the user (it may be a buffer the
+    likelihood reuses on its next call).  What evaluate_likelihood hands on is built from it by
+    a copying call (`np.array`, a comprehension); `np.asarray / atleast_1d / reshape / a bare
+    name` pass the user's own array on, and the sampler then stores it."""
+    ctx.rule(rid, 'likelihood-output-owned: evaluate_likelihood returns arrays built by copying '
+             'calls, never (a view of) the object the likelihood returned')
+    f = ctx.program.func('Sampler.evaluate_likelihood')
+    cfg = cfg_of(f)
+    # names bound to what the likelihood returned
+    user = set()
+    for st in walk_no_nested(f.node):
+        if isinstance(st, ast.Assign) and len(st.targets) == 1 and \
+                isinstance(st.targets[0], ast.Name) and isinstance(st.value, ast.Call) and \
+                dotted(st.value.func) == '%s.likelihood' % f.self_name:
+            user.add(st.targets[0].id)
+    ctx.require(user, 'F12: direct (vectorised) likelihood call not found')
+
+    def passes_on(e, depth=0):
+        """Does `e` evaluate to (a view of) a user-owned name?"""
+        if depth > 6:
+            return True
+        if isinstance(e, ast.Name):
+            if e.id in user:
+                return True
+            return False
+        if isinstance(e, ast.Call):
+            d = dotted(e.func) or ''
+            if d in VIEW_CALLS and e.args:
+                return passes_on(e.args[0], depth + 1)
+            if isinstance(e.func, ast.Attribute) and e.func.attr in (
+                    'reshape', 'view', 'ravel', 'squeeze', 'transpose', 'astype') and \
+                    not (e.func.attr == 'astype' and not any(
+                        k.arg == 'copy' for k in e.keywords)):
+                return passes_on(e.func.value, depth + 1)
+            return False
+        if isinstance(e, ast.Subscript):
+            return passes_on(e.value, depth + 1) and not _index_makes_copy(cfg, 0, e.slice) \
+                if False else passes_on(e.value, depth + 1) and isinstance(e.slice, ast.Slice)
+        if isinstance(e, ast.IfExp):
+            return passes_on(e.body, depth + 1) or passes_on(e.orelse, depth + 1)
+        return False
+    n = 0
+    for st in walk_no_nested(f.node):
+        if not (isinstance(st, ast.Assign) and len(st.targets) == 1 and
+                isinstance(st.targets[0], ast.Name) and st.targets[0].id not in user):
+            continue
+        mentions = any(isinstance(x, ast.Name) and x.id in user for x in ast.walk(st.value))
+        if not mentions:
+            continue
+        bad = passes_on(st.value)
+        n += 1
+        ctx.ob(rid, 'Sampler.evaluate_likelihood:%s:owned' % st.targets[0].id, not bad,
+               f.where(st), '`%s` builds a new array' % unparse(st)[:50] if not bad else
+               '`%s` passes the likelihood\'s own return object on (no copy): a vectorised '
+               'likelihood that reuses its output buffer overwrites what the sampler stored, '
+               'and the result differs from the scalar evaluation of the same function'
+               % unparse(st)[:60])
+    ctx.require(n >= 2, 'F12 saw only %d values built from the likelihood output (floor 2)' % n)
+    return n
